@@ -238,12 +238,12 @@ func (m *c07Mon) onCall(from *c13Node, method, target string, req any, start tim
 		return
 	}
 	// success is only an acceptance if the "already stored" shortcut cannot have been taken, and only a defect if
-	// the receiver had stored the last pre-transition round (=> switched) a full period before the call
+	// the receiver had stored the last pre-transition round (=> switched) half a period or more before the call
 	if m.last[recv.idx] >= pk.Round {
 		return
 	}
 	sw, ok := m.putAt[recv.idx][m.tr-1]
-	if !ok || start.Sub(sw) < m.nt.period {
+	if !ok || start.Sub(sw) < m.nt.period/2 {
 		return
 	}
 	m.run.Violation("C07/old-share-partial-accepted/leaver", fmt.Sprintf(
@@ -417,7 +417,7 @@ func c07Main(t *testing.T, run *vfRun, p c07Params, dir string) {
 	}
 	nt.onCall = m.onCall
 	nt.startPacer()
-	g1, err := nt.runInitialDKG(ns, thr, 4*time.Second)
+	g1, err := nt.runInitialDKG(ns, thr, 6*time.Second)
 	if err != nil {
 		fail("initial DKG", err)
 		return
@@ -581,7 +581,22 @@ func c07Main(t *testing.T, run *vfRun, p c07Params, dir string) {
 		return
 	}
 	m.compareIdentity(refPkt, ida, "after-transition")
-	// every member of the new group holds the whole chain across the transition
+	// every member of the new group holds the whole chain across the transition (the taps see a Put a moment
+	// after the control port reports it: wait for them)
+	for i := 0; i < 100; i++ {
+		behind := false
+		m.mu.Lock()
+		for _, n := range newMembers {
+			if !m.has[n.idx] || m.last[n.idx] < tr+5 {
+				behind = true
+			}
+		}
+		m.mu.Unlock()
+		if !behind {
+			break
+		}
+		time.Sleep(50 * time.Millisecond)
+	}
 	m.mu.Lock()
 	for _, n := range newMembers {
 		if !m.has[n.idx] || m.last[n.idx] < tr+5 {
